@@ -21,7 +21,11 @@ u16 sanitize(u16 off, u16 v) {
     switch (off) {
     case 0x20:
     case 0x30:
-        return (u16)((v & 0xFFEC) | 0x0100); // TS = 0, CM in 0..3, paused
+        // TS = 0, CM in 0..3; paused unless in event-count mode (where time does not count, only EW writes do)
+        return (u16)((v & 0xFFEC) | (((v >> 2) & 3) == 3 ? 0 : 0x0100));
+    case 0x22:
+    case 0x32:
+        return (u16)(v & 1); // EW is bit 0; the other bits are not documented
     case 0x112:
         return 0;
     case 0x11A:
@@ -47,7 +51,7 @@ public:
                "interpreter for guest-issued accesses";
     }
     const char* components_stub() const override {
-        return "host CPU (plan steps); no time passes except the 3-4 cycles of a guest access stub (timers paused, audio period 4096)";
+        return "host CPU (plan steps); no time passes except the 3-4 cycles of a guest access stub (timers paused or in event-count mode, audio period 4096)";
     }
     const char* nontrivial_rule() const override {
         return "non-trivial if at least 3 writes were judged by the frame condition and at least one access went through each of "
@@ -71,7 +75,25 @@ public:
             u16 v = r.chance(1, 8) ? (u16)0xFFFF : r.chance(1, 8) ? (u16)0 : (u16)(r.next() & 0xFFFF);
             s64 path = (s64)r.below(8); // 0..4 host, 5,6 dsp api, 7 guest
             s64 mirror = r.chance(1, 4) ? (s64)r.below(32) : 0;
-            if (x < 12) {
+            if (x < 12 && r.chance(1, 6)) {
+                // timer in event-count mode: configuration (MU either way), events, start value, software writes to the counter mirror
+                u16 tb = (u16)(0x20 + 0x10 * r.below(2));
+                switch (r.below(5)) {
+                case 0:
+                    p.add("w", {(s64)tb, (s64)(0x000C | (r.chance(1, 2) ? 0x0200 : 0) | (r.chance(2, 3) ? 0x0400 : 0) | (r.chance(1, 8) ? 0x0100 : 0)), path, mirror});
+                    break;
+                case 1:
+                case 2:
+                    p.add("w", {(s64)(tb + 2), 1, path, mirror});
+                    break;
+                case 3:
+                    p.add("w", {(s64)(tb + 4), (s64)r.range(1, 4), path, mirror});
+                    break;
+                default:
+                    p.add("w", {(s64)(tb + 8 + 2 * r.below(2)), (s64)v, path, mirror});
+                    break;
+                }
+            } else if (x < 12) {
                 u16 off = r.chance(3, 4) ? r.pick(kDocumented) : (u16)r.below(0x800);
                 if (r.chance(1, 3) && off >= 0x1C0 && off <= 0x1DE)
                     off = (u16)(0x1C0 + 2 * r.below(16));
@@ -212,7 +234,15 @@ public:
                 do_write(off, v, s.arg(2), s.arg(3));
                 if (!dead.empty())
                     break;
+                u32 tc0 = m.counter[0], tc1 = m.counter[1];
                 std::set<u16> allowed = m.write(off, v);
+                if ((off == 0x22 || off == 0x32) && (tc0 != m.counter[0] || tc1 != m.counter[1])) {
+                    out.probes["timer_event_counted"]++;
+                    if (!m.mu[off == 0x22 ? 0 : 1])
+                        out.probes["timer_event_counted_with_mirror_off"]++;
+                    if (allowed.count(0x200))
+                        out.probes["timer_event_reached_zero"]++;
+                }
                 if (off == 0x11E) {
                     base = v;
                     out.faults_configured["relocate"]++;
